@@ -11,6 +11,12 @@ Definition fl_of (l : list Z) : fl := rne2 (nth 0 l 0) (nth 1 l 0).
 Definition cds_views (t : cds) : args :=
   [cds_fields t; fl_fields (cds_unix_seconds t); [cds_datetime_us t]].
 
+Fixpoint triples (l : list Z) : list (Z * Z * Z) :=
+  match l with
+  | d :: s :: u :: r => (d, s, u) :: triples r
+  | _ => []
+  end.
+
 Definition run_cds (op : Z) (a : args) : args :=
   match op with
   | 400 => let t := cds_of (lst 0 a) in
@@ -23,6 +29,13 @@ Definition run_cds (op : Z) (a : args) : args :=
   | 406 => let t := cds_from_datetime (int 0 0 a) (int 0 1 a) (int 0 2 a) in
            [[0]; cds_fields t; fl_fields (dt_timestamp (int 0 0 a) (int 0 1 a) (int 0 2 a));
             [dt_instant_us (int 0 0 a) (int 0 1 a) (int 0 2 a)]]
+  (* from_datetime on the same instant expressed in another fixed-offset time zone (lst 1 = offset
+     in minutes): the model does not depend on it *)
+  | 416 => let t := cds_from_datetime (int 0 0 a) (int 0 1 a) (int 0 2 a) in
+           [[0]; cds_fields t; fl_fields (dt_timestamp (int 0 0 a) (int 0 1 a) (int 0 2 a));
+            [dt_instant_us (int 0 0 a) (int 0 1 a) (int 0 2 a)]]
+  | 417 => ret (fun t => cds_views t ++ [[cds_len_packed t]])
+             (cds_add_all (cds_of (lst 0 a)) (triples (lst 1 a)))
   | 407 => [0] :: cds_views (cds_of (lst 0 a))
   | 409 => [[0]; [cds_ms_of_today (fl_of (lst 0 a))]]
   | 410 => [[0]; cds_fields (cds_from_unix_days (int 0 0 a) (int 0 1 a));
